@@ -24,10 +24,24 @@ Inductive case :=
 | CaseP (g : Z) (hist : list (list (wop * obs))) (final : shape)
     (* g concurrent callers of one wrapper; caller i uses only keys = i mod g and filters on them;
        hist = what each caller did and saw, final = the tree afterwards *)
+| CaseM (fixed : list item) (mv mv' : item) (falses : Z) (seen : list (wop * obs))
+    (* one writer moves an entry back and forth between two keys with Update (mv <-> mv') over a fixed set of other
+       items while readers scan and Get concurrently; seen = the distinct (operation, result) pairs the readers
+       observed, falses = how often Update returned false *)
 | CaseFatal.                                          (* the implementation killed or hung the process *)
 
 (* the model stands for trees below 2^31 items (above that its constant recursion fuel is not known to suffice) *)
 Definition LIM : Z := 2147483648.
+
+(* the mover scenario: Update is one critical section, so at every linearisation point the map is one of two states,
+   and every read returns what one of the two states returns *)
+Definition mover_ok (fixed : list item) (mv mv' : item) (falses : Z) (seen : list (wop * obs)) : bool :=
+  let base := fold_left (fun a x => s_ins x a) fixed [] in
+  let A := s_ins mv base in let B := s_ins mv' base in
+  (falses =? 0) && negb (key mv =? key mv') && negb (is_some (s_lookup (key mv) base)) && negb (is_some (s_lookup (key mv') base)) &&
+  forallb (fun so => match fst so with
+                     | WGet _ | WScan _ _ _ _ => obs_eqb (snd so) (snd (ws_step A (fst so))) || obs_eqb (snd so) (snd (ws_step B (fst so)))
+                     | _ => false end) seen.
 
 (* ---------------- model runs ---------------- *)
 Fixpoint w_run (t : itree) (l : list wstep) : bool :=
@@ -116,6 +130,7 @@ Definition model_ok (c : case) : bool :=
       | Some ts => shape_is WDEG (merge (map itree_list ts)) (Some final)
       | None => false
       end
+  | CaseM fixed mv mv' falses seen => mover_ok fixed mv mv' falses seen
   | CaseFatal => false
   end.
 
@@ -170,6 +185,7 @@ Definition case_holds (c : case) : bool :=
       | Some Ls => shape_is WDEG (merge Ls) (Some final)
       | None => false
       end
+  | CaseM fixed mv mv' falses seen => mover_ok fixed mv mv' falses seen
   | CaseFatal => false
   end.
 
@@ -268,7 +284,7 @@ Qed.
 
 Theorem case_sound : forall c, case_accept c = true -> case_holds c = true.
 Proof.
-  intros c H. unfold case_accept in H. destruct c as [steps|deg steps|deg steps|g hist final|]; cbn [model_ok case_holds] in *.
+  intros c H. unfold case_accept in H. destruct c as [steps|deg steps|deg steps|g hist final|fixed mv mv' falses seen|]; cbn [model_ok case_holds] in *.
   - apply (w_run_sound steps iempty []); [apply refines_empty|exact H].
   - apply andb_prop in H as [Hd H]. rewrite Hd. cbn [andb]. apply Nat.leb_le in Hd.
     apply (i_run_sound deg Hd steps iempty []); [apply refines_empty|exact H].
@@ -278,5 +294,6 @@ Proof.
   - apply andb_prop in H as [Hg H]. rewrite Hg. cbn [andb].
     destruct (opts_all (map (p_run1 iempty) hist)) as [ts|] eqn:E; [|discriminate].
     rewrite (p_all_sound hist ts E). exact H.
+  - exact H.
   - discriminate.
 Qed.
